@@ -315,6 +315,8 @@ class Conc:
                 return n["cv"]
             if "cv" in n:
                 return n["cv"]
+            if not [a for a in args if a.get("k") != "defaultarg"] and any(c_ in ((t or "") + " " + (n.get("type") or "")) for c_ in ("QSet<", "QList<", "QVector<", "QStringList", "std::vector<", "std::set<", "QStack<", "QQueue<")):
+                return Table(items=[])       # default-constructed sequence / set
             raise Unknown("value of a %s object" % (t or "class"))
         if n.get("k") == "new":
             raise Unknown("allocation")
@@ -489,6 +491,28 @@ class Conc:
                         if short == "indexOf" and len(real) == 1:
                             x = self.eval(real[0], env, depth)
                             return o.items.index(x) if x in o.items else -1
+                        if short in ("isEmpty", "empty") and not real:
+                            return int(not o.items)
+                        if short in ("insert", "append", "push_back", "prepend", "push_front", "operator<<", "operator+=", "unite", "remove", "removeAll", "removeOne", "clear") and len(real) <= 1:
+                            # value semantics: the container named by the receiver gets a new value
+                            is_set = "QSet" in cls or "std::set" in cls or "unordered_set" in cls
+                            items = list(o.items)
+                            if short == "clear":
+                                items = []
+                            else:
+                                x = self.eval(real[0], env, depth)
+                                xs = list(x.items) if isinstance(x, Table) and x.items is not None else [x]
+                                if short in ("remove", "removeAll", "removeOne"):
+                                    items = [y for y in items if y not in xs]
+                                elif short in ("prepend", "push_front"):
+                                    items = xs + items
+                                else:
+                                    for y in xs:
+                                        if not (is_set and y in items):
+                                            items.append(y)
+                            new = Table(items=items)
+                            self.store(skip_copies(obj), new, env)
+                            return new
                     raise Unknown("container method %s" % short)
         if op == "[]" and len(args) == 2:
             o = self.eval(args[0], env, depth)
@@ -556,6 +580,10 @@ class Conc:
                 self.exec(c, env, depth)
         elif k == "decl":
             for v in s.get("vars", []):
+                if v.get("decl") and not isinstance(v.get("init"), dict) and any(c_ in (v.get("type") or "") for c_ in ("QSet<", "QList<", "QVector<", "QStringList", "std::vector<", "std::set<")):
+                    env[v["decl"]] = Table(items=[])
+                    env.pop("__unk__:" + v["decl"], None)
+                    continue
                 if v.get("decl") and isinstance(v.get("init"), dict):
                     try:
                         env[v["decl"]] = _conv(self.value_of_init(v["init"], env, depth), v.get("type"))
